@@ -22,6 +22,13 @@ GOOD = {"Source": dict(vo=5.0, rs=0.1), "PLoad": dict(pwr=1.0, pwrs=0.1, rt=1.0,
         "RectD": dict(vdrop=0.4, rs=0.0, ig=0.0, iq=0.0, rt=1.0), "RectM": dict(vdrop=0.0, rs=0.05, ig=0.001, iq=0.0, rt=1.0)}
 
 
+def _decoy_config(kind):
+    """An earlier file of the same kind: EVERY optional key and a [limits] table, all with values that differ from the defaults
+    (nothing of it may survive into a later load - neither via the path nor via state kept per class)."""
+    lims = spec.documented_limits(cls_of(kind))[:2]
+    return {SECTION[kind]: dict(GOOD[kind]), "limits": {k: [0.125, 0.25] for k in lims}}
+
+
 def _load(ctx, kind, config, decoy=False):
     """from_file on a file holding ``config``.  ``decoy``: the same path held OTHER parameters a moment ago and was loaded then
     (the component must be built from what the file holds now)."""
@@ -29,7 +36,7 @@ def _load(ctx, kind, config, decoy=False):
     if ctx.symbolic:
         with memory_files(ctx):
             if decoy:
-                envstubs.FILES["mem://c.toml"] = {SECTION[kind]: dict(GOOD[kind])}
+                envstubs.FILES["mem://c.toml"] = _decoy_config(kind)
                 cls.from_file("X", fname="mem://c.toml")
             envstubs.FILES["mem://c.toml"] = config
             return cls.from_file("X", fname="mem://c.toml")
@@ -39,7 +46,7 @@ def _load(ctx, kind, config, decoy=False):
     try:
         if decoy:
             with open(tmp.name, "w") as f:
-                toml.dump({SECTION[kind]: dict(GOOD[kind])}, f)
+                toml.dump(_decoy_config(kind), f)
             cls.from_file("X", fname=tmp.name)
         with open(tmp.name, "w") as f:
             toml.dump(config, f)
@@ -195,6 +202,11 @@ def instances(tier):
         out.append(Instance("C13", "c13:e_toml", dict(kind=kind, present=list(optional), form="const", decoy=True,
                                                       loss=True if kind in spec.LOADS else None),
                             cover=["loaded"], name="toml/%s/path-reused-with-new-content" % kind))
+        # ... and the later file is minimal: absent optional keys / an absent [limits] table take the constructor defaults
+        for sub, wl in (([], False), ([], True), (optional[:1], False)):
+            out.append(Instance("C13", "c13:e_toml", dict(kind=kind, present=sub, form="const", decoy=True, with_limits=wl,
+                                                          loss=None),
+                                cover=["loaded"], name="toml/%s/after-full-file/%s%s" % (kind, "+".join(sub) or "minimal", "+limits" if wl else "")))
         if kind == "LinReg":  # the deprecated key next to / instead of the new one
             for sub, form in ((list(optional), "const"), ([k for k in optional if k != "ig"], "const"), (list(optional), "t1x2")):
                 out.append(Instance("C13", "c13:e_toml", dict(kind=kind, present=sub, form=form, iq=True), cover=["loaded"],
